@@ -248,3 +248,12 @@ func VerifCtxSlots(ctx *Ctx) map[string][2]int {
 	m["rl"] = [2]int{n, n}
 	return m
 }
+
+// VerifPreprocess runs the parser's source clean-up (comments, formatting) on a copy of src and
+// returns the text the parser would go on to parse.
+func VerifPreprocess(src []byte, keepFmt bool) []byte {
+	p := &parser{tpl: append([]byte(nil), src...), keepFmt: keepFmt}
+	p.cutComments()
+	p.cutFmt()
+	return append([]byte(nil), p.tpl...)
+}
